@@ -402,3 +402,37 @@ func CanonVarOf(info *types.Info, body ast.Node, e ast.Expr) *types.Var {
 	}
 	return CanonVar(info, body, v)
 }
+
+// DeclaredIn reports whether the variable is declared (has its defining identifier) inside the
+// given subtree. Unlike a comparison of source positions it is also right for flattened views,
+// where the locals of an inlined helper lie elsewhere in the file.
+func DeclaredIn(info *types.Info, root ast.Node, v *types.Var) bool {
+	if root == nil || v == nil {
+		return false
+	}
+	// fast path: position inside the subtree's own range and not a synthetic view
+	found := false
+	ast.Inspect(root, func(n ast.Node) bool {
+		if found {
+			return false
+		}
+		if id, ok := n.(*ast.Ident); ok && info.Defs[id] == types.Object(v) {
+			found = true
+		}
+		return !found
+	})
+	if found {
+		return true
+	}
+	// implicit objects (type-switch bindings) are declared by their clause
+	ast.Inspect(root, func(n ast.Node) bool {
+		if found {
+			return false
+		}
+		if cc, ok := n.(*ast.CaseClause); ok && info.Implicits[cc] == types.Object(v) {
+			found = true
+		}
+		return !found
+	})
+	return found
+}
